@@ -105,3 +105,54 @@ func init() {
 		Assumptions: append([]string{"value-flow model: no aliasing through third-party code; append copies byte elements; copy/bytes.Equal/hashing only consume"}, commonAssumptions...),
 	})
 }
+
+func init() {
+	register("C05", &propDef{
+		Rules: []ruleDef{
+			{"C05.seal-first", ruleC05SealFirst, ""},
+			{"C05.swap-never-sealed", ruleC05SwapNeverSealed, ""},
+			{"C05.no-append-to-sealed", ruleC15CurSegLive, ""},
+			{"C05.liveness", ruleC05Liveness, ""},
+			{"C05.compact-complete", ruleC03CompactComplete, ""},
+			{"C05.older-first", ruleC03OlderFirst, ""},
+			{"C05.chain-exit", ruleC01ChainExit, ""},
+			{"C05.guarded", ruleGuarded, ""},
+			{"C05.balanced", ruleBalanced, ""},
+		},
+		Explanation: "Decides the invariants that make per-record compaction safe under interleaved writers, over all paths: the source is sealed under the exclusive lock before it is read, the log never appends to a sealed segment and swapSegment never installs one; a record is judged live on (hash, segment, offset), copied and the slot repointed to exactly the location the copy returned, only after a successful copy, all inside sections of DB.mu held exclusively (guarded); the source disappears only after the iterator reported a clean end of segment; a segment with delete records is compacted only together with all older ones, oldest first; the compaction walk of a bucket chain cannot end early. NOT decided: equality of contents before/during/after compaction for all schedules.",
+		Assumptions: commonAssumptions,
+	})
+	register("C03", &propDef{
+		Rules: []ruleDef{
+			{"C03.lock-brackets", ruleCloseOrder, ""},
+			{"C03.open-order", ruleOpenOrder, ""},
+			{"C03.single-write", ruleC03SingleWrite, ""},
+			{"C03.compact-complete", ruleC03CompactComplete, ""},
+			{"C03.copy-before-repoint", ruleC05Liveness, ""},
+			{"C03.older-first", ruleC03OlderFirst, ""},
+			{"C03.sequence-monotonic", ruleC03SequenceMonotonic, ""},
+			{"C03.write-ahead", ruleC03WriteAhead, ""},
+		},
+		Explanation: "Decides the structural crash protocol over all paths: the lock file brackets every mutation of a session (taken first in Open, released last and only by a completed Close); on the recovery branch the non-segment files are moved aside before index and log are opened, recovery replays segments in ascending sequence order, sequence ids only grow; a record reaches the log in one WriteAt of the whole encoded record; Put appends to the log before touching the index and Delete writes the delete record inside the index removal; compaction unlinks a source only after a clean end of segment, repoints a slot only after the copy was written, and drops delete records only together with all older segments. NOT decided: the contents recovered from each crash image; sector-tearing atomicity (relies on the checksum, C08).",
+		Assumptions: commonAssumptions,
+	})
+	register("C11", &propDef{
+		Rules: []ruleDef{
+			{"C11.chain-exit", ruleC01ChainExit, ""},
+			{"C11.cursor", ruleC11Cursor, ""},
+			{"C11.chain-drain", ruleC11Drain, ""},
+			{"C11.split-forward", ruleC01Split, ""},
+			{"C11.copied", ruleC14NoAliasOut, ""},
+		},
+		Explanation: "Decides: the scan walk of a bucket chain cannot end before the end of the chain; the scan position advances by exactly one bucket after a successful fetch of that bucket and is compared with index.numBuckets re-read on every iteration; ErrIterationDone only at the live bound with an empty queue; queued pairs are (copies of) results #0/#1 of readKeyValue for the visited slot; a whole chain is drained inside one shared section of DB.mu with ItemIterator.mu held; a split appends exactly one bucket, updates addressing before redistribution and publishes numBuckets last. NOT decided: exactly-once on every quiescent state; at-least-once under every interleaving.",
+		Assumptions: commonAssumptions,
+	})
+	register("C12", &propDef{
+		Rules: []ruleDef{
+			{"C12", ruleC12, ""},
+			{"C12.guarded", ruleGuarded, ""},
+		},
+		Explanation: "Decides: Backup holds maintenanceMu for all its file-system calls, guarded accesses and DB.mu acquisitions (compaction excluded for the whole backup, capture included); the copy bounds are file.size of not-full segments captured with DB.mu held; whole-file io.Copy is used only for segments absent from the captured map and io.CopyN is bounded by the captured size; every success return creates the lock file in the backup; the source file system is only opened read-only; datalog state is never read without DB.mu (guarded). NOT decided: that the opened backup equals the state at one instant for all schedules.",
+		Assumptions: commonAssumptions,
+	})
+}
